@@ -43,7 +43,7 @@ PROP = {
         "statement is reported to its caller as an error and the worker survives)",
         "state comparison uses SELECT * of the schema's tables plus three candidate names through the same path (database or session) "
         "as the statement; hidden state (indexes, free pages, WAL) is not compared",
-        "a hang is observed by the supervisor's 30 s per-case time-out; stack overflow and other process deaths as `abort`",
+        "a hang is observed by the supervisor's 120 s per-case time-out; stack overflow and other process deaths as `abort`",
         "pool model: jobs are opaque (ok / err / panic); shutdown of the pool is not modelled",
     ],
     "partial": "The pool theorems are complete for the model. For the statement pipeline nothing is proved about parser, binder, planner "
